@@ -163,3 +163,22 @@ Theorem c14_leader_change_keeps_db : forall meta_enc meta_dec cfg min_timeout ma
   (forall id ss, In (id, ss) (sw_sessions w') -> ss_armed ss = now).
 Proof. exact leader_change_keeps_db. Qed.
 Print Assumptions c14_leader_change_keeps_db.
+
+(* KeyToId inverts SessionKey on every id a log offset can take. *)
+Theorem c14_key_to_id_session_key : forall z,
+  (0 <= z < 9223372036854775808)%Z -> key_to_id (session_key z) = Some z.
+Proof. exact key_to_id_session_key. Qed.
+Print Assumptions c14_key_to_id_session_key.
+
+(* PARTIAL.  Initialize on the new leader finds every session whose key holds decodable metadata and arms it with the
+   full timeout at the time of the change.  Missing: the two hypotheses about the REST of the listing (Initialize does
+   not fail on another key; no other listed key parses to the same id) hold for every DB written through
+   createSession but are not part of the proved invariant. *)
+Theorem c14_leader_init_finds_session_partial : forall meta_dec st now z e t l,
+  KvProofs.sorted (st_kv st) -> (0 <= z < 9223372036854775808)%Z ->
+  kv_get (st_kv st) (session_key z) = Some (VRecord e) -> meta_dec (e_value e) = Some t ->
+  (forall y, In y (db_list st session_lo session_hi) -> key_to_id y = Some z -> y = session_key z) ->
+  leader_init meta_dec st now = Ok l ->
+  In (z, mkSess t now) l.
+Proof. exact leader_init_finds_session. Qed.
+Print Assumptions c14_leader_init_finds_session_partial.
